@@ -20,17 +20,25 @@ import (
 func init() { props["C39"] = runC39 }
 
 type c39op struct {
-	Kind   string   `json:"k"` // eval | check | call
-	Code   string   `json:"code"`
-	Defs   []string `json:"defs,omitempty"`
-	Refs   []string `json:"refs,omitempty"`
-	Uses   []string `json:"uses,omitempty"`
-	Call   int64    `json:"call"`
-	Ret    int64    `json:"ret"`
-	OK     bool     `json:"ok"`
-	Err    string   `json:"err,omitempty"`
-	Task   int      `json:"task"`
-	outVal []string
+	Kind string   `json:"k"` // eval | check | call
+	Code string   `json:"code"`
+	Defs []string `json:"defs,omitempty"`
+	Refs []string `json:"refs,omitempty"`
+	Uses []string `json:"uses,omitempty"`
+	// pre-existing globals this evaluation reads first (put $name), re-declares
+	// (var name = value) and deletes (del name)
+	Reads   []string          `json:"reads,omitempty"`
+	Sets    map[string]string `json:"sets,omitempty"`
+	Dels    []string          `json:"dels,omitempty"`
+	ErrKind string            `json:"errkind,omitempty"` // compile | exception | other
+	Out     []string          `json:"out,omitempty"`
+	Final   map[string]string `json:"final,omitempty"`
+	Call    int64             `json:"call"`
+	Ret     int64             `json:"ret"`
+	OK      bool              `json:"ok"`
+	Err     string            `json:"err,omitempty"`
+	Task    int               `json:"task"`
+	outVal  []string
 }
 
 type c39case struct {
@@ -41,6 +49,8 @@ type c39case struct {
 func runC39(c *Ctx) {
 	w := c.T.Workload
 	cs := &c39case{Modules: []string{"m1", "m2", "mbad"}}
+	// globals that exist before the concurrent phase: p* get re-declared, q* deleted
+	pre := []string{"p0", "p1", "q0", "q1", "q2"}
 	c.Res.Case = cs
 	dir, err := os.MkdirTemp("", "c39-")
 	if err != nil {
@@ -72,6 +82,12 @@ func runC39(c *Ctx) {
 			switch {
 			case k < 6:
 				op.Kind = "eval"
+				// optional read of a pre-existing global (its value is checked)
+				if w.Chance(1, 3) {
+					r := pre[w.Draw(len(pre))]
+					op.Reads = append(op.Reads, r)
+					parts = append(parts, "put $"+r)
+				}
 				// optional reference to somebody's definition
 				if len(allNames) > 0 && w.Chance(1, 2) {
 					ref := allNames[w.Draw(len(allNames))]
@@ -99,6 +115,20 @@ func runC39(c *Ctx) {
 					op.Defs[0] = name + "~"
 				}
 				allNames = append(allNames, op.Defs[0])
+				usesBad := len(op.Uses) > 0 && op.Uses[0] == "mbad"
+				if !usesBad && w.Chance(1, 4) {
+					// re-declaration of an existing global, with a unique value
+					n := pre[w.Draw(2)]
+					if len(op.Reads) == 0 || op.Reads[0] != n {
+						op.Sets = map[string]string{n: "n" + name}
+						parts = append(parts, fmt.Sprintf("var %s = n%s", n, name))
+					}
+				}
+				if !usesBad && w.Chance(1, 6) {
+					d := pre[2+w.Draw(3)]
+					op.Dels = append(op.Dels, d)
+					parts = append(parts, "del "+d)
+				}
 			case k < 8:
 				op.Kind = "check"
 				if len(allNames) > 0 {
@@ -124,6 +154,8 @@ func runC39(c *Ctx) {
 	useOK := map[string]int{}
 	var lost []string
 	var races []string
+	var final map[string]string
+	var finalStep int64
 	checked, cross := 0, 0
 	c.Bubble(func() {
 		s := simrt.New(c.T)
@@ -145,6 +177,11 @@ func runC39(c *Ctx) {
 				vs, _ := collect()
 				if len(vs) == 1 {
 					closure, _ = vs[0].(eval.Callable)
+				}
+			}
+			for _, n := range pre {
+				if err := ev.Eval(parse.Source{Name: "[setup]", Code: "var " + n + " = old"}, eval.EvalCfg{}); err != nil {
+					panic(err)
 				}
 			}
 			done := make(chan struct{}, len(cs.Tasks))
@@ -178,8 +215,17 @@ func runC39(c *Ctx) {
 							op.outVal = append(op.outVal, fmt.Sprint(v))
 						}
 						op.OK = e == nil
+						op.Out = op.outVal
 						if e != nil {
 							op.Err = e.Error()
+							switch {
+							case eval.UnpackCompilationErrors(e) != nil:
+								op.ErrKind = "compile"
+							case isException(e):
+								op.ErrKind = "exception"
+							default:
+								op.ErrKind = "other"
+							}
 						}
 						if op.Kind == "eval" && e == nil {
 							for _, m := range op.Uses {
@@ -195,9 +241,16 @@ func runC39(c *Ctx) {
 			// Definitions are never lost: whatever a completed operation
 			// published must be in the global namespace at the end.
 			g := ev.Global()
+			final = map[string]string{}
+			finalStep = int64(simrt.CurStep())*2 + 1
+			for _, n := range pre {
+				if v := g.IndexString(n); v != nil {
+					final[n] = fmt.Sprint(v.Get())
+				}
+			}
 			for _, task := range cs.Tasks {
 				for _, op := range task {
-					published := op.Kind == "extend" || (op.Kind == "eval" && (op.OK || !strings.Contains(op.Err, "not found")))
+					published := op.Kind == "extend" || (op.Kind == "eval" && (op.OK || op.ErrKind != "compile"))
 					if !published {
 						continue
 					}
@@ -223,10 +276,21 @@ func runC39(c *Ctx) {
 		c.Probe("designated-state-accessed-by-several-goroutines")
 	}
 	_ = checked
-	// 2. happens-before monitor
+	// 2. happens-before monitor: one report per pair of call sites
 	if len(races) > 0 {
 		sort.Strings(races)
-		c.Violation("data-race", "%d unsynchronised conflicting accesses to interpreter state; first: %s", len(races), races[0])
+		seen := map[string]bool{}
+		for _, r := range races {
+			k := raceSites(r)
+			if seen[k] {
+				continue
+			}
+			seen[k] = true
+			c.Violation("data-race", "unsynchronised conflicting accesses to interpreter state (%d reports in this run): %s", len(races), r)
+		}
+	}
+	if !c.Res.OK {
+		return
 	}
 	// 3c. a module whose body fails can never be imported successfully: in every
 	// sequential order each import runs the body again and fails. A success
@@ -247,7 +311,23 @@ func runC39(c *Ctx) {
 	if len(lost) > 0 {
 		c.Violation("lost-definition", "%d global definitions published by completed operations are missing from the global namespace at the end (lost update): %s", len(lost), strings.Join(lost, "; "))
 	}
-	// 3a. evaluations behave as in some sequential order w.r.t. the global namespace
+	// 3d. a global that resolved when an evaluation was compiled cannot vanish
+	// while it runs: sequentially, `put $q` either fails to compile or works.
+	vanished := false
+	for _, task := range cs.Tasks {
+		for _, op := range task {
+			if op.Kind == "eval" && op.ErrKind == "exception" && strings.Contains(op.Err, "not found") && strings.Contains(op.Err, "variable $") {
+				vanished = true
+				c.Violation("global-vanished-under-evaluation", "evaluation %q (task %d) was compiled while all its variables existed and then failed AT RUN TIME with %q: a concurrent `del` emptied the slot of the namespace it is running in (in every sequential order it either fails to compile or succeeds)", op.Code, op.Task, op.Err)
+			}
+		}
+	}
+	if !c.Res.OK {
+		return
+	}
+	// 3a. evaluations behave as in some sequential order w.r.t. the global
+	// namespace: which names resolve, which values the pre-existing globals
+	// have, and what the namespace holds at the end.
 	var ops []porcupine.Operation
 	for _, task := range cs.Tasks {
 		for _, op := range task {
@@ -257,19 +337,39 @@ func runC39(c *Ctx) {
 			ops = append(ops, porcupine.Operation{ClientId: op.Task, Input: op, Call: op.Call, Output: op, Return: op.Ret})
 		}
 	}
+	finalOp := &c39op{Kind: "final", Task: len(cs.Tasks), Final: final, Call: finalStep, Ret: finalStep + 1}
+	cs.Tasks = append(cs.Tasks, []*c39op{finalOp})
+	ops = append(ops, porcupine.Operation{ClientId: finalOp.Task, Input: finalOp, Call: finalOp.Call, Output: finalOp, Return: finalOp.Ret})
+	init := ""
+	{
+		m := map[string]string{}
+		for _, n := range pre {
+			m[n] = "old"
+		}
+		init = encNames(m)
+	}
 	model := porcupine.Model{
-		Init: func() interface{} { return "" },
+		Init: func() interface{} { return init },
 		Step: func(state, input, output interface{}) (bool, interface{}) {
 			st := state.(string)
 			op := input.(*c39op)
-			have := map[string]bool{}
-			for _, n := range strings.Split(st, ",") {
-				have[n] = true
+			have := decNames(st)
+			if op.Kind == "final" {
+				for _, n := range pre {
+					want, ok := have[n]
+					got, ok2 := op.Final[n]
+					if ok != ok2 || want != got {
+						return false, st
+					}
+				}
+				return true, st
 			}
 			all := true
-			for _, r := range op.Refs {
-				if !have[r] {
-					all = false
+			for _, lists := range [][]string{op.Refs, op.Reads, op.Dels} {
+				for _, r := range lists {
+					if _, ok := have[r]; !ok {
+						all = false
+					}
 				}
 			}
 			usesBad := false
@@ -280,7 +380,24 @@ func runC39(c *Ctx) {
 			}
 			if !all {
 				// compilation must fail, nothing is defined
-				return !op.OK && strings.Contains(op.Err, "not found"), st
+				return !op.OK && op.ErrKind == "compile", st
+			}
+			// values of the pre-existing globals read first. A global being
+			// re-declared by an evaluation that is still running is visible with
+			// its initial value (the namespace is published before the body
+			// runs): accepted, the property is about which definitions resolve.
+			for k, r := range op.Reads {
+				if k >= len(op.Out) {
+					return false, st
+				}
+				if op.Out[k] != have[r] && op.Out[k] != "<nil>" {
+					return false, st
+				}
+			}
+			for _, d := range op.Defs {
+				if _, ok := have[d]; !ok {
+					have[d] = ""
+				}
 			}
 			if usesBad {
 				// the failing module throws before the definitions that follow
@@ -288,9 +405,15 @@ func runC39(c *Ctx) {
 				// (An import of the failing module that SUCCEEDS is reported by
 				// the dedicated check above, under its own clause; here it is
 				// accepted so that the rest of the history is still checked.)
-				return op.OK || strings.Contains(op.Err, "bad-module"), addNames(st, op.Defs)
+				return op.OK || strings.Contains(op.Err, "bad-module"), encNames(have)
 			}
-			return op.OK, addNames(st, op.Defs)
+			for n, v := range op.Sets {
+				have[n] = v
+			}
+			for _, d := range op.Dels {
+				delete(have, d)
+			}
+			return op.OK, encNames(have)
 		},
 	}
 	switch porcupine.CheckOperationsTimeout(model, ops, 10*time.Second) {
@@ -298,12 +421,17 @@ func runC39(c *Ctx) {
 		var lines []string
 		for _, o := range ops {
 			op := o.Input.(*c39op)
-			lines = append(lines, fmt.Sprintf("t%d [%d,%d] defs=%v refs=%v uses=%v ok=%v err=%q", op.Task, op.Call, op.Ret, op.Defs, op.Refs, op.Uses, op.OK, op.Err))
+			if op.Kind == "final" {
+				lines = append(lines, fmt.Sprintf("end [%d,%d] namespace holds %v", op.Call, op.Ret, op.Final))
+				continue
+			}
+			lines = append(lines, fmt.Sprintf("t%d [%d,%d] %s defs=%v refs=%v uses=%v reads=%v sets=%v dels=%v ok=%v out=%v err=%q", op.Task, op.Call, op.Ret, op.Kind, op.Defs, op.Refs, op.Uses, op.Reads, op.Sets, op.Dels, op.OK, firstN(op.Out, len(op.Reads)), op.Err))
 		}
-		c.Violation("serializability", "the evaluations' outcomes (which global names resolved, which definitions were published) match no sequential order:\n%s", strings.Join(lines, "\n"))
+		c.Violation("serializability", "the evaluations' outcomes (which global names resolved, the values of re-declared globals, which definitions were published or deleted, the namespace at the end) match no sequential order:\n%s", strings.Join(lines, "\n"))
 	case porcupine.Unknown:
 		c.Probe("serializability-check-inconclusive")
 	}
+	_ = vanished
 	// 3b. a module's body runs once, however many evaluations import it
 	// concurrently (in any sequential order the second `use` finds it loaded).
 	for _, m := range []string{"m1", "m2"} {
@@ -313,20 +441,47 @@ func runC39(c *Ctx) {
 	}
 }
 
-func addNames(st string, defs []string) string {
-	have := map[string]bool{}
-	for _, n := range strings.Split(st, ",") {
-		if n != "" {
-			have[n] = true
+func isException(e error) bool {
+	_, ok := e.(eval.Exception)
+	return ok
+}
+
+func firstN(a []string, n int) []string {
+	if len(a) > n {
+		return a[:n]
+	}
+	return a
+}
+
+// raceSites extracts the two call sites of a race report.
+func raceSites(r string) string {
+	var sites []string
+	for _, f := range strings.Fields(r) {
+		if strings.Contains(f, ".go:") {
+			sites = append(sites, f)
 		}
 	}
-	for _, d := range defs {
-		have[d] = true
-	}
+	sort.Strings(sites)
+	return strings.Join(sites, "|")
+}
+
+func encNames(m map[string]string) string {
 	var ns []string
-	for n := range have {
-		ns = append(ns, n)
+	for n, v := range m {
+		ns = append(ns, n+"="+v)
 	}
 	sort.Strings(ns)
 	return strings.Join(ns, ",")
+}
+
+func decNames(st string) map[string]string {
+	m := map[string]string{}
+	for _, e := range strings.Split(st, ",") {
+		if e == "" {
+			continue
+		}
+		n, v, _ := strings.Cut(e, "=")
+		m[n] = v
+	}
+	return m
 }
